@@ -473,7 +473,56 @@ def op_tables():
     out += [",\n".join(f'  ("{a}", "{b}")' for a, b in rows), "]", "", "end MV", ""]
     return "\n".join(out), {"rows": rows}
 
-TABLES = {"OpTables": op_tables, "ClassTables": class_tables, "LexTables": lex_tables, "CoreTables": core_tables, "ConvertTables": convert_tables, "AnnotateTables": annotate_tables}
+
+# ------------------------------------------------------------------------------------------------
+# Operator signatures of the primitive stubs (check/resource/primitive/*.py)
+# ------------------------------------------------------------------------------------------------
+STUB_TAGS = ["int", "float", "complex", "bool", "str"]
+
+
+def stub_tables():
+    import glob as _glob
+    rows = []
+    for path in sorted(_glob.glob(os.path.join(REPO, "src", "check", "resource", "primitive", "*.py"))):
+        cls = None
+        for line in open(path, encoding="utf-8"):
+            m = re.match(r"class (\w+)(?:\((\w+)\))?:", line)
+            if m:
+                cls = m.group(1)
+                continue
+            if line.strip().startswith("#") or cls not in STUB_TAGS:
+                continue
+            m = re.match(r"\s+def (__\w+__)\(self(?:, (\w+): ([^,)]+(?:\[[^\]]*\])?)(?:, \w+=None)?)?\) -> ([\w\[\], ]+?):\s*pass", line)
+            if not m:
+                if re.match(r"\s+def __\w+__\(", line) and "__init__" not in line and "__iter__" not in line and "__getitem__" not in line and "__next__" not in line:
+                    raise TranslateError(f"{os.path.basename(path)}: cannot parse stub line {line.strip()!r}")
+                continue
+            name, _, pty, ret = m.group(1), m.group(2), m.group(3), m.group(4)
+            if name in ("__init__", "__iter__", "__getitem__", "__next__"):
+                continue
+
+            def tags(t):
+                if t is None:
+                    return []
+                t = t.strip()
+                mm = re.fullmatch(r"Union\[(.*)\]", t)
+                parts = [x.strip() for x in mm.group(1).split(",")] if mm else [t]
+                for x in parts:
+                    if x not in STUB_TAGS:
+                        raise TranslateError(f"{os.path.basename(path)}: unknown type {x!r} in {line.strip()!r}")
+                return parts
+            rows.append((cls, name, tags(pty), tags(ret)))
+    if len(rows) < 40:
+        raise TranslateError(f"primitive stubs: only {len(rows)} operator rows found")
+    out = ["-- GENERATED by tools/translate.py from /repo/src/check/resource/primitive/*.py — do not edit", "namespace MV", "",
+           "inductive Tag where", "  | int | float | complex | bool | str", "  deriving DecidableEq, Repr", "",
+           "/-- an operator method of a primitive stub: class, method, admitted declared types of the operand (empty: unary), declared result -/",
+           "structure StubRow where", "  cls : Tag", "  method : String", "  param : List Tag", "  ret : List Tag", "  deriving DecidableEq, Repr", "",
+           "def stubRows : List StubRow := ["]
+    out += [",\n".join("  ⟨.%s, \"%s\", [%s], [%s]⟩" % (c, n, ", ".join("." + x for x in p), ", ".join("." + x for x in r)) for c, n, p, r in rows), "]", "", "end MV", ""]
+    return "\n".join(out), {"rows": len(rows)}
+
+TABLES = {"StubTables": stub_tables, "OpTables": op_tables, "ClassTables": class_tables, "LexTables": lex_tables, "CoreTables": core_tables, "ConvertTables": convert_tables, "AnnotateTables": annotate_tables}
 
 
 def main(argv):
